@@ -541,6 +541,11 @@ class Dynamic(Parameter):
         super().__set__(obj,val)
 
         dynamic = callable(val)
+        if dynamic and obj is not None and self.allow_refs:
+            # A callable reference (depends method, bound function,
+            # reactive expression) was resolved by the superclass; what
+            # is stored is its value, so there is no generator to set up
+            dynamic = obj._param__private.values.get(self.name) is val
         if dynamic: self._initialize_generator(val,obj)
         if obj is None: self._set_instantiate(dynamic)
 
